@@ -1,9 +1,17 @@
 import ElvisVerif.Model.TcpSys
 import ElvisVerif.Spec.Rfc9293
+import ElvisVerif.Lemmas.TcbPath
+import ElvisVerif.Lemmas.TcbIrs
+import ElvisVerif.Props.C17
 /-!
 # C03 — TCP connections open, synchronise and close as RFC 9293 prescribes
 
-(stage 3: the witnesses of the three repaired close defects as regression theorems)
+Property theorems only.  Helper lemmas: `Lemmas/TcbEdges.lean` (one lemma per block of
+`process_segment`), `Lemmas/TcbPath.lean` (compositions).  The specification side is
+`Spec/Rfc9293.lean`: `rfcEdges` (Figure 5 plus the edges the text prescribes) and `rfcCause`
+(the same edges labelled with the events that may cause them), written from the RFC.
+The model (`Model/Tcb.lean`) follows the code after four `fix:` commits (F-C03-1..4, see
+`notes/C03.md`); the witnesses of the repaired defects are kept as `c03_regression_*`.
 -/
 namespace Elvis.Tcp
 namespace C03
@@ -120,6 +128,349 @@ theorem c03_regression_synsent_rst_without_ack :
     rfcCause (.segment false true false false) (some .SynSent) none = false ∧
     rfcCause (.segment true true false false) (some .SynSent) none = true := by
   decide
+
+/-! ## the edge table (finite: by `decide`) -/
+
+/-- all twenty events -/
+def allEvents : List Event :=
+  [.userOpen, .userClose, .userAbort, .timeWaitTimeout] ++
+    (List.range 16).map fun n => .segment (n / 8 % 2 == 1) (n / 4 % 2 == 1) (n / 2 % 2 == 1) (n % 2 == 1)
+
+theorem mem_allEvents (ev : Event) : ev ∈ allEvents := by
+  cases ev with
+  | segment a r sy f => cases a <;> cases r <;> cases sy <;> cases f <;> decide
+  | _ => decide
+
+theorem mem_allStates (a : Option State) : a ∈ allStates := by
+  cases a with
+  | none => decide
+  | some x => cases x <;> decide
+
+/-- **every labelled edge is an edge of Figure 5 (as extended by the text)** -/
+theorem c03_table_cause_is_edge (ev : Event) (a b : Option State) (h : rfcCause ev a b = true) :
+    rfcEdges a b = true := by
+  have key : (allEvents.all fun ev => allStates.all fun a => allStates.all fun b =>
+      !rfcCause ev a b || rfcEdges a b) = true := by decide
+  rw [List.all_eq_true] at key
+  have h1 := key ev (mem_allEvents ev)
+  rw [List.all_eq_true] at h1
+  have h2 := h1 a (mem_allStates a)
+  rw [List.all_eq_true] at h2
+  have h3 := h2 b (mem_allStates b)
+  rw [h] at h3
+  simpa using h3
+
+def evSyn : Event → Bool
+  | .segment _ _ syn _ => syn
+  | _ => false
+
+def evFin : Event → Bool
+  | .segment _ _ _ fin => fin
+  | _ => false
+
+/-- **two steps for one event collapse to one edge**, except from SYN-SENT to CLOSE-WAIT, which
+    needs a segment with SYN and FIN.  (The RFC prescribes that two-edge path for a SYN,ACK,FIN
+    segment: 3.10.7.3 fourth — "If there are other controls or text in the segment, then
+    continue processing at the sixth step" — and the eighth step then processes the FIN in
+    ESTABLISHED.) -/
+theorem c03_table_two_steps (ev : Event) (a m b : State)
+    (h1 : rfcStepBy ev (some a) (some m) = true) (h2 : rfcStepBy ev (some m) (some b) = true) :
+    rfcStep (some a) (some b) = true ∨
+      (a = .SynSent ∧ b = .CloseWait ∧ evSyn ev = true ∧ evFin ev = true) := by
+  have key : (allEvents.all fun ev => allStates.tail.all fun a => allStates.tail.all fun m =>
+      allStates.tail.all fun b =>
+      !(rfcStepBy ev a m && rfcStepBy ev m b) || rfcStep a b ||
+        (a == some .SynSent && b == some .CloseWait && evSyn ev && evFin ev)) = true := by decide
+  have mem : ∀ x : State, some x ∈ allStates.tail := by intro x; cases x <;> decide
+  rw [List.all_eq_true] at key
+  have k1 := key ev (mem_allEvents ev)
+  rw [List.all_eq_true] at k1
+  have k2 := k1 (some a) (mem a)
+  rw [List.all_eq_true] at k2
+  have k3 := k2 (some m) (mem m)
+  rw [List.all_eq_true] at k3
+  have k4 := k3 (some b) (mem b)
+  rw [h1, h2] at k4
+  simp only [Bool.and_self, Bool.not_true, Bool.false_or, Bool.or_eq_true, Bool.and_eq_true,
+    beq_iff_eq, Option.some.injEq] at k4
+  rcases k4 with k | ⟨⟨⟨k5, k6⟩, k7⟩, k8⟩
+  · exact Or.inl k
+  · exact Or.inr ⟨k5, k6, k7, k8⟩
+
+/-! ## c03_transitions -/
+
+open Tcb
+
+/-- **One segment.**  For EVERY TCB (any state, any field values) and EVERY segment: if
+    `process_segment` returns, the connection state afterwards is the state before, one edge of
+    the RFC 9293 diagram away, or CLOSE-WAIT reached from SYN-SENT by the RFC's two-edge path
+    (a SYN,FIN segment that completes the handshake); each edge taken is one the RFC allows for
+    the control bits of this very segment (`rfcCause`); and when the result makes the caller
+    delete the TCB, that is an edge to CLOSED for these control bits. -/
+theorem c03_transitions_process_segment (s : Tcb) (segment : Segment) (s' : Tcb) (r : ProcessSegmentResult)
+    (e : s.processSegment segment = .ok (s', r)) :
+    (rfcStep (some s.state) (some s'.state) = true ∨
+      (s.state = .SynSent ∧ s'.state = .CloseWait ∧ segment.hdr.ctl.syn = true ∧ segment.hdr.ctl.fin = true)) ∧
+    (∃ mid, rfcStepBy (evOf segment.hdr.ctl) (some s.state) (some mid) = true ∧
+            rfcStepBy (evOf segment.hdr.ctl) (some mid) (some s'.state) = true) ∧
+    (r.shouldDeleteTcb = true →
+      rfcCause (evOf segment.hdr.ctl) (some s'.state) none = true ∧ rfcEdges (some s'.state) none = true) := by
+  obtain ⟨mid, h1, h2, hd, _⟩ := processSegment_edges s segment s' r e
+  refine ⟨?_, ⟨mid, h1, h2⟩, fun h => ⟨hd h, c03_table_cause_is_edge _ _ _ (hd h)⟩⟩
+  rcases c03_table_two_steps _ _ _ _ h1 h2 with h | ⟨ha, hb, hsyn, hfin⟩
+  · exact Or.inl h
+  · exact Or.inr ⟨ha, hb, hsyn, hfin⟩
+
+/-- the events a call stands for -/
+def callEvents (s : Tcb) : Call → Event → Prop
+  | .segmentArrives seg, ev => ∃ x ∈ seg :: s.incoming.segments, ev = evOf x.hdr.ctl
+  | .advanceTime _, ev => ev = .timeWaitTimeout
+  | .close, ev => ev = .userClose
+  | _, _ => False
+
+/-- **Every call.**  For every TCB satisfying `TwInv` (the 2·MSL timer runs only in TIME-WAIT —
+    an invariant: `c03_transitions_start`, and this theorem preserves it) and EVERY call —
+    `segment_arrives` with any segment, `advance_time`, `send`, `receive`, `close`, `abort`,
+    `segments` — that returns: the connection state moves along a path of edges of the RFC 9293
+    diagram, each caused by an event the call stands for (the control bits of the arriving
+    segment or of a segment waiting in the reorder queue; the TIME-WAIT timeout; the user's
+    CLOSE), to the new state or — when the caller is told to delete the TCB — to CLOSED.
+    `send`, `receive`, `segments` and `abort` (after which the caller deletes the TCB) never
+    change the state: for them no event is allowed, so the path is empty. -/
+theorem c03_transitions (s : Tcb) (ht : TwInv s) (c : Call) (r : Option Tcb) (e : s.call c = .ok r) :
+    Path (callEvents s c) (some s.state) (r.map (·.state)) ∧ (∀ s', r = some s' → TwInv s') := by
+  cases c with
+  | segmentArrives seg =>
+    simp only [Tcb.call] at e
+    cases h1 : s.segmentArrives seg with
+    | error err => rw [h1] at e; simp at e
+    | ok p =>
+      obtain ⟨s1, r1⟩ := p
+      rw [h1] at e
+      obtain ⟨pth, tw⟩ := segmentArrives_path s seg s1 r1 h1
+      cases r1 with
+      | Ok =>
+        simp only [Except.ok.injEq] at e; subst e
+        exact ⟨pth, fun s' hs => by cases hs; exact tw ht rfl⟩
+      | Close =>
+        simp only [Except.ok.injEq] at e; subst e
+        exact ⟨pth, fun s' hs => by simp at hs⟩
+  | advanceTime ms =>
+    simp only [Tcb.call] at e
+    cases h1 : s.advanceTime ms with
+    | error err => rw [h1] at e; simp at e
+    | ok p =>
+      obtain ⟨s1, r1⟩ := p
+      rw [h1] at e
+      obtain ⟨hst, tw, hclose⟩ := advanceTime_edges s ms s1 r1 h1
+      cases r1 with
+      | Ignore =>
+        simp only [Except.ok.injEq] at e; subst e
+        simp only [Option.map_some]
+        rw [hst]
+        exact ⟨.refl _, fun s' hs => by cases hs; exact tw ht⟩
+      | CloseConnection =>
+        simp only [Except.ok.injEq] at e; subst e
+        exact ⟨.tail (.refl _) (by simp [callEvents]) (hclose rfl ht), fun s' hs => by simp at hs⟩
+  | send bytes =>
+    simp only [Tcb.call, Except.ok.injEq] at e; subst e
+    have k := send_keep s bytes
+    simp only [Option.map_some]; rw [k.state]
+    exact ⟨.refl _, fun s' hs => by cases hs; exact k.twInv ht⟩
+  | receive =>
+    simp only [Tcb.call, Except.ok.injEq] at e; subst e
+    have k := receive_keep s
+    simp only [Option.map_some]; rw [k.state]
+    exact ⟨.refl _, fun s' hs => by cases hs; exact k.twInv ht⟩
+  | close =>
+    simp only [Tcb.call] at e
+    cases h1 : s.close with
+    | error err => rw [h1] at e; simp at e
+    | ok p =>
+      obtain ⟨s1, r1⟩ := p
+      rw [h1] at e
+      simp only [Except.ok.injEq] at e; subst e
+      obtain ⟨st, tw⟩ := close_edges s s1 r1 h1
+      exact ⟨Path.of_step (S := callEvents s .close) (by simp [callEvents]) st,
+        fun s' hs => by cases hs; exact tw ht⟩
+  | abort =>
+    simp only [Tcb.call] at e
+    cases h1 : s.abort with
+    | error err => rw [h1] at e; simp at e
+    | ok s1 =>
+      rw [h1] at e
+      simp only [Except.ok.injEq] at e; subst e
+      have k := abort_keep s s1 h1
+      simp only [Option.map_some]; rw [k.state]
+      exact ⟨.refl _, fun s' hs => by cases hs; exact k.twInv ht⟩
+  | segments =>
+    simp only [Tcb.call] at e
+    cases h1 : s.segments with
+    | error err => rw [h1] at e; simp at e
+    | ok p =>
+      obtain ⟨s1, out⟩ := p
+      rw [h1] at e
+      simp only [Except.ok.injEq] at e; subst e
+      have k := segments_keep s s1 out h1
+      simp only [Option.map_some]; rw [k.state]
+      exact ⟨.refl _, fun s' hs => by cases hs; exact k.twInv ht⟩
+
+/-- a path of edges of `rfcEdges` (Figure 5 as extended by the text), unlabelled -/
+inductive EdgePath : Option State → Option State → Prop
+  | refl (a : Option State) : EdgePath a a
+  | tail {a b c : Option State} : EdgePath a b → rfcEdges b c = true → EdgePath a c
+
+/-- every hop of a labelled path is an edge of the diagram: what `c03_transitions` says in terms
+    of `rfcEdges` alone -/
+theorem c03_transitions_unlabelled {S : Event → Prop} {a b : Option State} (p : Path S a b) :
+    EdgePath a b := by
+  induction p with
+  | refl => exact .refl _
+  | tail _ _ hc ih => exact .tail ih (c03_table_cause_is_edge _ _ _ hc)
+
+/-- `P` holds for every call along the run (`none` = the TCB was deleted) -/
+def walks (P : Tcb → Call → Option Tcb → Prop) : Option Tcb → List Call → Prop
+  | none, _ => True
+  | some _, [] => True
+  | some s, c :: cs => ∀ r, s.call c = .ok r → P s c r ∧ walks P r cs
+
+/-- **All runs.**  From a TCB satisfying `TwInv` (in particular from `open` and from LISTEN,
+    `c03_transitions_start`), along EVERY finite sequence of calls — any segments, any API calls
+    in any order — every single call moves the connection state along a path of RFC 9293 edges
+    caused by the events that call stands for (induction over the sequence). -/
+theorem c03_transitions_run (s : Tcb) (ht : TwInv s) (cs : List Call) :
+    walks (fun s c r => Path (callEvents s c) (some s.state) (r.map (·.state))) (some s) cs := by
+  induction cs generalizing s with
+  | nil => trivial
+  | cons c cs ih =>
+    intro r e
+    obtain ⟨p, tw⟩ := c03_transitions s ht c r e
+    refine ⟨p, ?_⟩
+    cases r with
+    | none => cases cs <;> trivial
+    | some s' => exact ih s' (tw s' rfl)
+
+/-- **Both ways a TCB comes into existence** are edges out of CLOSED / LISTEN and establish
+    `TwInv`: the active OPEN creates SYN-SENT; in LISTEN only a segment with SYN and without RST
+    and ACK creates a TCB, in SYN-RECEIVED. -/
+theorem c03_transitions_start :
+    (∀ lp rp iss mtu s, Tcb.open lp rp iss mtu = .ok s →
+      rfcCause .userOpen none (some s.state) = true ∧ TwInv s) ∧
+    (∀ seg iss mtu tcb, segmentArrivesListen seg iss mtu = .ok (some (.Tcb tcb)) →
+      rfcCause (evOf seg.hdr.ctl) none (some tcb.state) = true ∧ TwInv tcb) := by
+  constructor
+  · intro lp rp iss mtu s e
+    unfold Tcb.open at e
+    dsimp only at e
+    rw [enqueue_eq] at e
+    cases e
+    refine ⟨by rw [state_enqueueBuilt]; rfl, ?_⟩
+    intro h
+    rw [(enqueueBuilt_frame _ _).2.2.2.2.2.1] at h
+    simp at h
+  · intro seg iss mtu tcb e
+    unfold segmentArrivesListen at e
+    dsimp only at e
+    split at e
+    · simp at e
+    · rename_i hrst
+      split at e
+      · cases hb : (Hdr.builder seg.hdr.dstPort seg.hdr.srcPort seg.hdr.ack).withRst.build 0 <;>
+          simp [hb] at e
+      · rename_i hack
+        split at e
+        · rename_i hsyn
+          rw [enqueue_eq] at e
+          dsimp only at e
+          simp only [Except.ok.injEq, Option.some.injEq, ListenResult.Tcb.injEq] at e
+          subst e
+          refine ⟨?_, ?_⟩
+          · simp only [state_enqueueBuilt]
+            simp [rfcCause, evOf, hsyn, hrst, hack]
+          · intro h
+            simp only [(enqueueBuilt_frame _ _).2.2.2.2.2.1] at h
+            simp at h
+        · simp at e
+
+/-! ## old duplicate SYNs never change IRS -/
+
+/-- **Old duplicate SYN.**  Once the peer's SYN has been accepted (every state but SYN-SENT, so
+    in particular every synchronised state) NO segment — any control bits, any sequence and
+    acknowledgment numbers, e.g. a SYN of an earlier incarnation with a different ISN taken from
+    the history — changes `RCV.IRS`, and the endpoint never returns to SYN-SENT. -/
+theorem c03_old_duplicate_syn (s : Tcb) (seg : Segment) (h : s.state ≠ .SynSent) (s' : Tcb)
+    (e : s.segmentArrives seg = .ok (s', .Ok)) : s'.rcv.irs = s.rcv.irs ∧ s'.state ≠ .SynSent :=
+  let k := segmentArrives_irs s seg h s' e
+  ⟨k.irs, k.notSynSent⟩
+
+/-- one call of any kind keeps IRS outside SYN-SENT -/
+theorem c03_irs_stable (s : Tcb) (hw : Wf s) (h : s.state ≠ .SynSent) (c : Call) (s' : Tcb)
+    (e : s.call c = .ok (some s')) : s'.rcv.irs = s.rcv.irs ∧ s'.state ≠ .SynSent := by
+  have same : ∀ t : Tcb, Same s t → t.state = s.state → t.rcv.irs = s.rcv.irs ∧ t.state ≠ .SynSent :=
+    fun t sm st => ⟨by rw [sm.rcv], by rw [st]; exact h⟩
+  cases c with
+  | segmentArrives seg =>
+    simp only [Tcb.call] at e
+    cases h1 : s.segmentArrives seg with
+    | error err => rw [h1] at e; simp at e
+    | ok p =>
+      obtain ⟨s1, r1⟩ := p
+      rw [h1] at e
+      cases r1 with
+      | Ok => simp at e; subst e; exact c03_old_duplicate_syn s seg h _ h1
+      | Close => simp at e
+  | advanceTime ms =>
+    simp only [Tcb.call] at e
+    obtain ⟨s1, r1, e1, same1, st1⟩ := advanceTime_spec s ms
+    rw [e1] at e
+    cases r1 with
+    | Ignore => simp at e; subst e; exact same _ same1 st1
+    | CloseConnection => simp at e
+  | send bytes =>
+    simp only [Tcb.call, Except.ok.injEq, Option.some.injEq] at e; subst e
+    exact same _ (send_same s bytes).1 (send_same s bytes).2
+  | receive =>
+    simp only [Tcb.call, Except.ok.injEq, Option.some.injEq] at e; subst e
+    refine ⟨?_, by rw [(receive_rx s).2]; exact h⟩
+    unfold receive; split <;> rfl
+  | close =>
+    simp only [Tcb.call] at e
+    obtain ⟨s1, r1, e1, same1, st1⟩ := close_spec s
+    rw [e1] at e
+    simp at e; subst e
+    exact ⟨by rw [same1.rcv], fun hx => h (st1 hx)⟩
+  | abort =>
+    simp only [Tcb.call] at e
+    obtain ⟨s1, e1, same1, st1⟩ := abort_spec s
+    rw [e1] at e
+    simp at e; subst e
+    exact same _ same1 st1
+  | segments =>
+    simp only [Tcb.call] at e
+    obtain ⟨s1, out, e1, same1, st1⟩ := segments_spec s hw
+    rw [e1] at e
+    simp at e; subst e
+    exact same _ same1 st1
+
+/-- **IRS along all runs**: from a well-formed TCB that has left SYN-SENT, along every finite
+    sequence of valid calls (any segments: old duplicates, forged ones, any API call), `RCV.IRS`
+    never changes -/
+theorem c03_irs_stable_run (s : Tcb) (hw : Wf s) (hi : HeapIdle s) (h : s.state ≠ .SynSent)
+    (cs : List Call) (hcs : ∀ c ∈ cs, c.Valid) :
+    walks (fun s0 _ r => ∀ s', r = some s' → s'.rcv.irs = s0.rcv.irs) (some s) cs := by
+  induction cs generalizing s with
+  | nil => trivial
+  | cons c cs ih =>
+    intro r e
+    cases r with
+    | none => exact ⟨fun s' hs => by simp at hs, by cases cs <;> trivial⟩
+    | some s1 =>
+      obtain ⟨k1, k2⟩ := c03_irs_stable s hw h c s1 e
+      obtain ⟨r', e', wf'⟩ := c17_total s hw hi c (hcs c (by simp))
+      rw [e] at e'
+      cases e'
+      obtain ⟨wf1, idle1⟩ := wf' s1 rfl
+      exact ⟨fun s' hs => by cases hs; exact k1, ih s1 wf1 idle1 k2 (fun c hc => hcs c (by simp [hc]))⟩
 
 end C03
 end Elvis.Tcp
